@@ -37,7 +37,7 @@ func init() {
 	register(&c19{base{
 		id:          "C19",
 		level:       lvlExploration,
-		rule:        "a valid small set is re-emitted by the reference writers with ONE semantic mutation and fully re-checksummed (packet MD5s / PAR1 control hash; in 'rederive' mode also file IDs, set ID and set hash, so that only semantic validation can object): every numeric field of every PAR2 packet type and of the PAR1 header and entries x boundary values {0,1,v-1,v+1,max-1,max,2^31,2^32,2^62,2^63,2^64-1, remaining+-1, slice-multiple+-1}; bodies truncated/extended; removal and duplication of every packet type in index and volume files; recovery blocks of the wrong size; duplicate, unsorted, unknown and missing IDs; file lengths and hashes that disagree with the checksum lists; then seeded PAIRS of mutations. Each mutated archive is verified and repaired (data files intact, one missing, one corrupt) in a child capped at 4 GiB: no panic or fatal error; runtime.MemStats.Sys may not grow by more than 512 MiB for these < 1 MiB sets when the declared slice size is <= 64 KiB; 'no repair needed' only if every declared file has its declared hash; every file Repair creates or changes must be a declared name inside the directory whose bytes have the MD5 the archive itself declares. A key is (format, family, file, packet/field, value, data state)",
+		rule:        "a valid small set is re-emitted by the reference writers with ONE semantic mutation and fully re-checksummed (packet MD5s / PAR1 control hash; in 'rederive' mode also file IDs, set ID and set hash, so that only semantic validation can object): every numeric field of every PAR2 packet type and of the PAR1 header and entries x boundary values {0,1,v-1,v+1,max-1,max,2^31,2^32,2^62,2^63,2^64-1, remaining+-1, slice-multiple+-1}; bodies truncated/extended; removal and duplication of every packet type in index and volume files; recovery blocks of the wrong size; duplicate, unsorted, unknown and missing IDs; file lengths and hashes that disagree with the checksum lists; then seeded PAIRS of mutations and the full recovery-packet field grid applied to volumes stripped of their main/description/checksum packets. Each mutated archive is verified and repaired (data files intact, one missing, one corrupt) in a child capped at 4 GiB: no panic or fatal error; runtime.MemStats.Sys may not grow by more than 512 MiB for these < 1 MiB sets when the declared slice size is <= 64 KiB; 'no repair needed' only if every declared file has its declared hash; every file Repair creates or changes must be a declared name inside the directory whose bytes have the MD5 the archive itself declares. A key is (format, family, file, packet/field, value, data state)",
 		assumptions: append([]string{"an allocation failure is inconclusive when the mutation declares a slice/file size above the cap (memory proportional to a declared size is allowed by the property)"}, commonAssumptions...),
 		opts:        core.WorkerOpts{CrashIsViolation: true, ASLimitMiB: 4096, WallSeconds: 2400, CPUSeconds: 1200},
 	}})
@@ -52,7 +52,7 @@ func (c *c19) Cases(tier string, seed int64) []core.Case {
 	for s := 0; s < nsets; s++ {
 		sd := r.Int63()
 		for _, dmg := range []string{"intact", "one-missing", "one-corrupt"} {
-			for _, fam := range []string{"fields", "fields-rederive", "structure", "pairs"} {
+			for _, fam := range []string{"fields", "fields-rederive", "structure", "pairs", "fields-bare-volumes"} {
 				for pt := 0; pt < parts; pt++ {
 					cs = append(cs, core.MkCase(fmt.Sprintf("par2-s%d-%s-%s-%d", s, fam, dmg, pt), c19Params{sd, "par2", fam, dmg, pt, parts}))
 				}
@@ -627,7 +627,34 @@ func (c *c19) Run(cs core.Case) core.Result {
 		}
 		fam := p.Family
 		var muts []p2Mutation
-		if fam == "pairs" {
+		if fam == "fields-bare-volumes" {
+			// a layout the format allows (volumes carrying only creator and
+			// recovery packets) combined with every field mutation of those volumes
+			bare := func(f map[string][]par2rw.Packet) {
+				for _, nme := range a.names[1:] {
+					var out []par2rw.Packet
+					for _, q := range f[nme] {
+						if q.Type == par2rw.TypeCreator || q.Type == par2rw.TypeRecv {
+							out = append(out, q)
+						}
+					}
+					f[nme] = out
+				}
+			}
+			b := &p2Archive{files: cloneArchive(a.files), names: a.names}
+			bare(b.files)
+			for _, m := range p2Mutations(b, "fields", h.set.SliceSize, rng) {
+				m := m
+				if strings.HasPrefix(m.desc, "arch.par2#") {
+					continue
+				}
+				muts = append(muts, p2Mutation{desc: "volumes without main/description/checksum packets AND " + m.desc, big: m.big, apply: func(f map[string][]par2rw.Packet) {
+					bare(f)
+					m.apply(f)
+				}})
+			}
+			muts = append(muts, p2Mutation{desc: "volumes without main/description/checksum packets", apply: bare})
+		} else if fam == "pairs" {
 			all := append(p2Mutations(a, "fields", h.set.SliceSize, rng), p2Mutations(a, "structure", h.set.SliceSize, rng)...)
 			for i := 0; i < 60*p.Parts; i++ {
 				x, y := all[rng.Intn(len(all))], all[rng.Intn(len(all))]
